@@ -32,7 +32,15 @@ R = Rules(
         "(IPv6 groups, IPv4 groups in v4-mapped form, range edges, unicast) against a model of ipaddress/struct/socket "
         "that spells out the pre-3.13 and 3.13+ library semantics, and must be True exactly for the groups.  Helper methods "
         "are evaluated whether or not the engine expanded them, so the verdict does not depend on how the functions "
-        "are spelled.  The 0.1 s race between handler completion and the empty-ACK timer is not decided."
+        "are spelled.  Message(...) is not modelled but evaluated through the analysed Message.__init__, and the scenarios "
+        "are run with opaque individuals AND with the boundary values 0, 1, 65535 as message IDs (0 is a message ID, "
+        "CON = 0 a type, EMPTY = 0 a code: a truthiness test standing in for `is not None` anywhere between the request "
+        "and the wire loses them in the evaluation as it does at run time); what the constructor files under .mid / "
+        ".mtype / .code is also decided on its own.  Responses that a proxy forwards from another hop: every render "
+        "method of proxy/server.py is evaluated (through the analysed Message.copy) with an upstream answer of every "
+        "type, and the message type its result carries is fed as preset type into the analysed send_message -- what "
+        "reaches the wire must be legal for this hop whichever of the two sites resets the upstream type.  "
+        "The 0.1 s race between handler completion and the empty-ACK timer is not decided."
     ),
     rule_text="exhaustive finite-domain evaluation of the dispatchers in the checker's own evaluator against a reference decision table; scenario evaluation of the bookkeeping (final-state and effect comparison)",
 )
@@ -179,6 +187,18 @@ def _argmap(m, name, args, kwargs):
     return [fr.vars[p] for p in params(fi)]
 
 
+def _same(a, b):
+    """the same individual, or the same concrete message ID"""
+    return a is b or (type(a) is int and type(b) is int and a == b)
+
+
+# Message IDs are 16-bit integers and 0 is one of them (as good as any other: RFC 7252 section 3): the scenarios
+# are evaluated with opaque individuals as message IDs (identity is what is compared) AND with the concrete boundary
+# values, so that a truthiness test standing in for `is not None` somewhere between the request and the wire
+# (`if mid:`, `mid or self._next_message_id()`) loses the ID 0 in the evaluation exactly as it does at run time.
+MID_VALUES = (0, 1, 0xFFFF)
+
+
 def _label(x):
     if isinstance(x, Obj):
         return x.tag
@@ -204,7 +224,7 @@ def _other_effects(trace):
 
 # -- dispatch_message -------------------------------------------------------------------------------------------
 
-def dispatch_reaction(prog, preds, mtype, code, dedup, matched, mcast):
+def dispatch_reaction(prog, preds, mtype, code, dedup, matched, mcast, mid=None):
     """Labels of what dispatch_message does with an incoming (mtype, code) message in a world where the duplicate
     filter answers `dedup`, the token layer answers `matched` and the message was received on a multicast address
     iff `mcast`.  -> (labels, machine)"""
@@ -213,7 +233,7 @@ def dispatch_reaction(prog, preds, mtype, code, dedup, matched, mcast):
     # the *source* of an incoming datagram is never a multicast address; what matters is the local address
     remote = _remote("message.remote", mcast=False, mcast_locally=mcast)
     msg = Obj("obj", "message", lazy=True, attrs={
-        "mtype": Sym(mtype), "code": code, "mid": Obj("obj", "message.mid"), "token": Obj("obj", "message.token"), "remote": remote})
+        "mtype": Sym(mtype), "code": code, "mid": Obj("obj", "message.mid") if mid is None else mid, "token": Obj("obj", "message.token"), "remote": remote})
 
     def plain(method, label, result):
         def stub(m, args, kwargs, node):
@@ -362,47 +382,51 @@ def _fields(f):
 def b(ctx):
     n = 0
     # _process_ping: an empty CON is answered by an empty RST with the same message ID (RFC 7252 section 4.3)
-    for mcast in (False, True):
+    for mcast, mid in itertools.product((False, True), (None,) + MID_VALUES):
         def mk():
-            return [Obj("obj", "message", lazy=True, attrs={"mtype": Sym("CON"), "code": 0, "mid": Obj("obj", "message.mid"), "token": Obj("obj", "message.token"),
+            return [Obj("obj", "message", lazy=True, attrs={"mtype": Sym("CON"), "code": 0, "mid": Obj("obj", "message.mid") if mid is None else mid, "token": Obj("obj", "message.token"),
                                                             "remote": _remote("message.remote", mcast_locally=mcast)})]
         fi, sent, others, out, args = _builder_run(ctx, "_process_ping", mk)
         msg = args[0]
+        world = "" if mid is None else "message ID %d: " % mid
         ctx.ob("a ping is answered by exactly one message and nothing else", len(sent) == 1 and not others and out[0] == "return", fi, fi.node, construct="def _process_ping",
-               detail="sent %d message(s), other effects %s, outcome %s" % (len(sent), others, out[0]))
+               detail="%ssent %d message(s), other effects %s, outcome %s" % (world, len(sent), others, out[0]))
         for f in sent:
-            ok = isinstance(f.get("mtype"), Sym) and f["mtype"] == "RST" and f.get("code") == 0 and not isinstance(f.get("code"), bool) and f.get("mid") is msg.attrs["mid"]
-            ctx.ob("a ping is answered by an empty Reset with the ping's message ID", ok, fi, fi.node, construct="_process_ping: the Reset", detail=str(_fields(f)))
-            ctx.ob("the Reset goes to the response address of the sender", f.get("remote") is msg.attrs["remote"].resp, fi, fi.node, construct="_process_ping: destination of the Reset", detail=str(_fields(f)))
+            ok = isinstance(f.get("mtype"), Sym) and f["mtype"] == "RST" and f.get("code") == 0 and not isinstance(f.get("code"), bool) and _same(f.get("mid"), msg.attrs["mid"])
+            ctx.ob("a ping is answered by an empty Reset with the ping's message ID", ok, fi, fi.node, construct="_process_ping: the Reset", detail=world + str(_fields(f)))
+            ctx.ob("the Reset goes to the response address of the sender", f.get("remote") is msg.attrs["remote"].resp, fi, fi.node, construct="_process_ping: destination of the Reset", detail=world + str(_fields(f)))
             n += 1
     # _send_empty_ack(remote, mid, reason)
-    def mk2():
-        return [_remote("remote"), Obj("obj", "mid"), "reason"]
     fi = ctx.prog.func(MM + "_send_empty_ack")
     ctx.need(len(params(fi)) >= 2, "_send_empty_ack does not take (remote, mid, ...)")
-    fi, sent, others, out, args = _builder_run(ctx, "_send_empty_ack", lambda: mk2()[:len(params(fi))])
-    ctx.ob("_send_empty_ack sends exactly one message and nothing else", len(sent) == 1 and not others and out[0] == "return", fi, fi.node, construct="def _send_empty_ack",
-           detail="sent %d message(s), other effects %s, outcome %s" % (len(sent), others, out[0]))
-    for f in sent:
-        ok = isinstance(f.get("mtype"), Sym) and f["mtype"] == "ACK" and f.get("code") == 0 and not isinstance(f.get("code"), bool) and f.get("mid") is args[1]
-        ctx.ob("_send_empty_ack sends (ACK, EMPTY, given mid)", ok, fi, fi.node, construct="_send_empty_ack: the ACK", detail=str(_fields(f)))
-        # whether _send_empty_ack or its callers take the response address is decided end to end (the ACK arm of
-        # dispatch_message here and in C10.a, the timer callback in C10.c); alone it must not send it elsewhere
-        ctx.ob("the empty ACK goes to the given remote", f.get("remote") is args[0].resp or f.get("remote") is args[0], fi, fi.node, construct="_send_empty_ack: destination of the ACK", detail=str(_fields(f)))
-        n += 1
+    for mid in (None,) + MID_VALUES:
+        def mk2():
+            return [_remote("remote"), Obj("obj", "mid") if mid is None else mid, "reason"]
+        world = "" if mid is None else "message ID %d: " % mid
+        fi, sent, others, out, args = _builder_run(ctx, "_send_empty_ack", lambda: mk2()[:len(params(fi))])
+        ctx.ob("_send_empty_ack sends exactly one message and nothing else", len(sent) == 1 and not others and out[0] == "return", fi, fi.node, construct="def _send_empty_ack",
+               detail="%ssent %d message(s), other effects %s, outcome %s" % (world, len(sent), others, out[0]))
+        for f in sent:
+            ok = isinstance(f.get("mtype"), Sym) and f["mtype"] == "ACK" and f.get("code") == 0 and not isinstance(f.get("code"), bool) and _same(f.get("mid"), args[1])
+            ctx.ob("_send_empty_ack sends (ACK, EMPTY, given mid)", ok, fi, fi.node, construct="_send_empty_ack: the ACK", detail=world + str(_fields(f)))
+            # whether _send_empty_ack or its callers take the response address is decided end to end (the ACK arm of
+            # dispatch_message here and in C10.a, the timer callback in C10.c); alone it must not send it elsewhere
+            ctx.ob("the empty ACK goes to the given remote", f.get("remote") is args[0].resp or f.get("remote") is args[0], fi, fi.node, construct="_send_empty_ack: destination of the ACK", detail=world + str(_fields(f)))
+            n += 1
     # the two arms of dispatch_message that answer a confirmable response
     fi = ctx.prog.func(MM + "dispatch_message")
     preds = _preds(ctx)
-    for code in (65, 69, 132, 160):
-        got, _ = dispatch_reaction(ctx.prog, preds, "CON", code, False, False, False)
+    for code, mid in itertools.product((65, 69, 132, 160), (None,) + MID_VALUES):
+        ml = "message.mid" if mid is None else repr(mid)
+        got, _ = dispatch_reaction(ctx.prog, preds, "CON", code, False, False, False, mid=mid)
         sends = [x for x in got if x.startswith("send:")]
-        ctx.ob("an unmatched confirmable response is answered by an empty Reset with its message ID", sends == ["send:RST/EMPTY/mid=message.mid/to=response-address(message.remote)"] or
-               [s.rsplit("/to=", 1)[0] for s in sends] == ["send:RST/EMPTY/mid=message.mid"], fi, fi.node, construct="dispatch_message: Reset for an unmatched CON response", detail=str(sends))
+        ctx.ob("an unmatched confirmable response is answered by an empty Reset with its message ID", [s.rsplit("/to=", 1)[0] for s in sends] == ["send:RST/EMPTY/mid=%s" % ml], fi, fi.node,
+               construct="dispatch_message: Reset for an unmatched CON response", detail=str(sends))
         ctx.ob("the Reset goes to the response address of the sender", [s.rsplit("/to=", 1)[-1] for s in sends] == ["response-address(message.remote)"], fi, fi.node,
                construct="dispatch_message: destination of the Reset", detail=str(sends))
-        got, _ = dispatch_reaction(ctx.prog, preds, "CON", code, False, True, False)
+        got, _ = dispatch_reaction(ctx.prog, preds, "CON", code, False, True, False, mid=mid)
         sends = [x for x in got if x.startswith("send:")]
-        ctx.ob("a matched confirmable response is acknowledged under its own message ID, towards the response address of its sender", sends == ["send:ACK/EMPTY/mid=message.mid/to=response-address(message.remote)"], fi, fi.node,
+        ctx.ob("a matched confirmable response is acknowledged under its own message ID, towards the response address of its sender", sends == ["send:ACK/EMPTY/mid=%s/to=response-address(message.remote)" % ml], fi, fi.node,
                construct="dispatch_message: ACK for a matched CON response", detail=str(sends))
         n += 2
     ctx.floor("Reset/ACK builder scenarios", n, 4)
@@ -415,7 +439,7 @@ NO_RESPONSE = (None, 0, 2, 8, 16, 26)
 BACKLOG = ("absent", "empty", "busy")
 
 
-def send_reaction(prog, preds, code, nr, hit, preset, shut, mcast, rel, reqt, backlog, stale_mid=False):
+def send_reaction(prog, preds, code, nr, hit, preset, shut, mcast, rel, reqt, backlog, stale_mid=False, stored=None):
     """What send_message does with an outgoing message of the given code / No-Response option / preset type in a
     world with (hit) or without an acknowledgement opportunity under (message.remote, message.token), during
     shutdown or not, towards a multicast address or not, with the given transport tuning, type of the request it
@@ -427,12 +451,13 @@ def send_reaction(prog, preds, code, nr, hit, preset, shut, mcast, rel, reqt, ba
     token = Obj("obj", "message.token")
     request = Obj("obj", "message.request", lazy=True, attrs={"mtype": Sym(reqt)}) if reqt else None
     msg = Obj("obj", "message", lazy=True, attrs={
-        "mid": Obj("obj", "stale-mid") if stale_mid else None, "code": code, "mtype": Sym(preset) if preset else None, "token": token, "remote": remote,
+        "mid": (stale_mid if type(stale_mid) is int else Obj("obj", "stale-mid")) if stale_mid is not False else None, "code": code, "mtype": Sym(preset) if preset else None, "token": token, "remote": remote,
         "opt": Obj("obj", "message.opt", lazy=True, attrs={"no_response": nr}),
         "transport_tuning": Obj("obj", "message.transport_tuning", lazy=True, attrs={"reliability": rel}),
         "request": request})
     monitor = Obj("obj", "messageerror_monitor")
-    stored_mid, stored_timer = Obj("obj", "stored-mid"), Obj("handle", "stored-timer")
+    # stored: a concrete message ID under which the request is waiting for its acknowledgement (default: an individual)
+    stored_mid, stored_timer = (Obj("obj", "stored-mid") if stored is None else stored), Obj("handle", "stored-timer")
     by_key, by_val = (_remote("bystander.remote"), Obj("obj", "bystander.token")), (Obj("obj", "bystander.mid"), Obj("handle", "bystander-timer"))
     pb = new_dict({by_key: by_val}, tag="_piggyback_opportunities")
     key = (remote, token)
@@ -457,7 +482,7 @@ def send_reaction(prog, preds, code, nr, hit, preset, shut, mcast, rel, reqt, ba
             return ("?%r" % (x,),)
         f = x.attrs
         mid = f.get("mid")
-        midk = "stored" if mid is stored_mid else "fresh" if mid is fresh_mid else _label(mid)
+        midk = "stored" if _same(mid, stored_mid) else "fresh" if mid is fresh_mid else _label(mid)
         rem = f.get("remote")
         remk = "same" if rem is remote else "response-address" if rem is remote.resp else _label(rem)
         mt = f.get("mtype")
@@ -637,14 +662,22 @@ def d(ctx):
     # a message ID set by the application is never put on the wire
     preds = _preds(ctx)
     stale = 0
-    for code, hit, preset in itertools.product(SEND_CODES, (False, True), (None, "CON", "NON")):
+    for code, hit, preset, stale_mid in itertools.product(SEND_CODES, (False, True), (None, "CON", "NON"), (True, 0)):
         if code == 1 and hit:
             continue
         cell = (code, None, hit, preset, False, False, None, None, "absent")
-        got, _m = send_reaction(ctx.prog, preds, *cell, stale_mid=True)
+        got, _m = send_reaction(ctx.prog, preds, *cell, stale_mid=stale_mid)
         stale += 1
         if _cmp(got) != reference_send(*cell):
-            bad.setdefault((repr(_render(got)), repr(_render(reference_send(*cell)))), []).append(cell)
+            bad.setdefault((repr(_render(got)), repr(_render(reference_send(*cell)))), []).append(cell + (("message ID %d set by the application" % stale_mid,) if stale_mid is not True else ()))
+    # the acknowledgement goes out under the request's message ID whatever its value (0 included): piggy-backed
+    # response and empty ACK for a suppressed one
+    for code, nr, preset, reqt, mid in itertools.product((69, 132), (None, 2, 26), (None, "CON"), ("CON",), MID_VALUES):
+        cell = (code, nr, True, preset, False, False, None, reqt, "absent")
+        got, _m = send_reaction(ctx.prog, preds, *cell, stored=mid)
+        stale += 1
+        if _cmp(got) != reference_send(*cell):
+            bad.setdefault((repr(_render(got)), repr(_render(reference_send(*cell)))), []).append(cell + ("stored message ID %d" % mid,))
     rows = len(table) + stale
     ctx.extra["send_table_rows"] = rows
     ctx.extra["send_samples"] = samples
@@ -654,7 +687,7 @@ def d(ctx):
     for (g, w), cells in sorted(bad.items())[:12]:
         ctx.ob("outcome for (code, No-Response, piggy-back, preset type, shutdown, multicast, reliability, request type, backlog) equals the reference", False, fi, fi.node,
                construct="send_message: %s instead of %s" % (g, w),
-               detail="%d cell(s), e.g. code=%s no_response=%s piggyback=%s preset=%s shutdown=%s multicast=%s reliability=%s request_type=%s backlog=%s" % ((len(cells),) + cells[0]))
+               detail="%d cell(s), e.g. code=%s no_response=%s piggyback=%s preset=%s shutdown=%s multicast=%s reliability=%s request_type=%s backlog=%s" % ((len(cells),) + cells[0][:9]) + "".join(" (%s)" % x for x in cells[0][9:]))
 
 
 @R.clause("C10.f", "no transmission or queueing is reachable once mtype == CON and the destination is multicast")
@@ -692,13 +725,13 @@ def f(ctx):
 PB = "self._piggyback_opportunities"
 
 
-def request_scenario(ctx, mtype, prior):
+def request_scenario(ctx, mtype, prior, mid_value=None):
     """_process_request on a request of the given type, with (prior) or without an older opportunity under the
     same (remote, token); afterwards the armed timers are fired one by one.  -> dict of observations"""
     prog = ctx.prog
     cls = prog.cls(MMCLS)
     fi = prog.func(MM + "_process_request")
-    remote, token, mid = _remote("request.remote"), Obj("obj", "request.token"), Obj("obj", "request.mid")
+    remote, token, mid = _remote("request.remote"), Obj("obj", "request.token"), (Obj("obj", "request.mid") if mid_value is None else mid_value)
     tuning = Obj("obj", "request.transport_tuning", lazy=True)
     req = Obj("obj", "request", lazy=True, attrs={"mtype": Sym(mtype), "code": 1, "mid": mid, "token": token, "remote": remote, "transport_tuning": tuning})
     by_key, by_val = (_remote("bystander.remote"), Obj("obj", "bystander.token")), (Obj("obj", "bystander.mid"), Obj("handle", "bystander-timer"))
@@ -750,12 +783,12 @@ def c(ctx):
     node = fi.node
     executed = set()
     n_con = 0
-    for mtype, prior in itertools.product(TYPES, (False, True)):
-        o = request_scenario(ctx, mtype, prior)
+    for mtype, prior, mid_value in itertools.product(TYPES, (False, True), (None, 0)):
+        o = request_scenario(ctx, mtype, prior, mid_value)
         m = o["machine"]
         executed |= m.executed
         req, key, pb = o["req"], o["key"], o["pb"]
-        world = "%s request, %s" % (mtype, "an older opportunity under the same (remote, token) is still open" if prior else "no older opportunity")
+        world = "%s request%s, %s" % (mtype, "" if mid_value is None else " with message ID %d" % mid_value, "an older opportunity under the same (remote, token) is still open" if prior else "no older opportunity")
         ctx.ob("_process_request returns normally", o["outcome"][0] == "return", fi, node, construct="_process_request: outcome", detail="%s: %s" % (world, o["outcome"],))
         ctx.ob("the request is handed on to the token manager exactly once, and nothing else is called", len(o["handed"]) == 1 and o["handed"][0][2][:1] == (req,) and not o["stray"], fi, node,
                construct="_process_request: hand-over to the token manager", detail="%s: %d hand-over(s), other effects %s" % (world, len(o["handed"]), o["stray"]))
@@ -772,7 +805,7 @@ def c(ctx):
             e = o["entry"]
             ctx.ob("the opportunity is stored under (request.remote, request.token)", e is not None and len(o["keys"]) == 2, fi, node, construct="_process_request: key of the opportunity",
                    detail="%s: table keys %s" % (world, [tuple(_label(x) for x in k) if isinstance(k, tuple) else _label(k) for k in o["keys"]]))
-            hok = isinstance(e, tuple) and len(e) == 2 and e[0] is req.attrs["mid"] and len(timers) == 1 and e[1] is timers[0][1]
+            hok = isinstance(e, tuple) and len(e) == 2 and _same(e[0], req.attrs["mid"]) and len(timers) == 1 and e[1] is timers[0][1]
             ctx.ob("what is stored is (request.mid, timer handle)", hok, fi, node, construct="_process_request: stored opportunity",
                    detail="%s: stored %s" % (world, tuple(_label(x) for x in e) if isinstance(e, tuple) else _label(e)))
             ctx.ob("every confirmable request gets an acknowledgement opportunity before it is processed", o["stored_before_handover"], fi, node,
@@ -795,7 +828,7 @@ def c(ctx):
                 for ack in fz["acks"]:
                     isack = isinstance(ack.get("mtype"), Sym) and ack["mtype"] == "ACK" and ack.get("code") == 0 and not isinstance(ack.get("code"), bool)
                     ctx.ob("what the callback sends is an empty ACK", isack, fi, node, construct="empty-ACK timer callback: type and code", detail="%s: %s" % (world, _fields(ack)))
-                    ctx.ob("the empty ACK carries the stored message ID of the request", ack.get("mid") is req.attrs["mid"], fi, node, construct="empty-ACK timer callback: message ID", detail="%s: mid %s" % (world, _label(ack.get("mid"))))
+                    ctx.ob("the empty ACK carries the stored message ID of the request", _same(ack.get("mid"), req.attrs["mid"]), fi, node, construct="empty-ACK timer callback: message ID", detail="%s: mid %s" % (world, _label(ack.get("mid"))))
                     ctx.ob("the empty ACK goes to the request's remote", ack.get("remote") is req.attrs["remote"].resp, fi, node, construct="empty-ACK timer callback: remote", detail="%s: remote %s" % (world, _label(ack.get("remote"))))
         else:
             ctx.ob("the empty-ACK timer is armed only for confirmable requests", not o["timers"] and not o["cancelled"] and (o["entry"] is None) == (not prior) and (not prior or o["entry"] == o["old"]), fi, node,
@@ -991,6 +1024,185 @@ def i_multicast_locally(ctx):
                construct="UDP6EndpointAddress.%s" % prop, detail="; ".join(wrong[:6]) if wrong else None)
 
 
+# -- the constructor the message layer builds its own messages with ----------------------------------------------
+
+MSG = "message.Message"
+
+
+def _construct_message(ctx, kwargs):
+    """Message(**kwargs) evaluated through the analysed __init__ -> ('return', Obj) | ('raise', class)"""
+    prog = ctx.prog
+    m = Machine(prog, prog.cls(MSG), Obj("self", "unused"), CONSTS, _preds(ctx), {})
+    try:
+        try:
+            return ("return", m.construct(prog.cls(MSG).qn, [], dict(kwargs), None))
+        except kit.Raised as r:
+            return ("raise", r.cls)
+    except kit.Unknown as u:
+        raise AnalysisError("evaluation of Message(%s): %s is outside the evaluator's vocabulary" % (", ".join(sorted(kwargs)), u))
+
+
+@R.clause("C10.j", "Message(...) files the message ID, type and code it is given under .mid / .mtype / .code for every legal value -- message ID 0, type CON (= 0) and code EMPTY (= 0.00) included -- under either spelling of the keyword")
+def j_constructor(ctx):
+    """The message layer builds every Reset and empty ACK through this constructor (`Message(_mtype=RST, _mid=..,
+    code=EMPTY)`, `Message(code=EMPTY, mid=mid, mtype=ACK)`); 'acknowledged under its message ID' therefore also says
+    that the constructor hands on what it is given.  An independently written breaking change tested the deprecated
+    `mid=` keyword by truthiness: the empty ACK for a suppressed response to a request with message ID 0 went out
+    under a fresh ID.  Decided by evaluating the analysed __init__ (helpers, guard order, spelling of the tests do not
+    matter) on every message type, on the boundary message IDs and on the boundary codes of every class; the same
+    scenarios run end to end through send_message / _send_empty_ack / _process_ping in C10.b-d."""
+    prog = ctx.prog
+    fi = prog.lookup_method(prog.cls(MSG).qn, "__init__")
+    ctx.need(fi is not None, "Message.__init__ missing")
+    ind = Obj("obj", "some-mid")
+    n = 0
+    for key in ("_mid", "mid"):
+        wrong = []
+        for mid in MID_VALUES + (ind, None):
+            out = _construct_message(ctx, {"code": 0, key: mid})
+            got = out[1].attrs.get("mid", "<unset>") if out[0] == "return" else "raises %s" % out[1]
+            n += 1
+            if not (out[0] == "return" and ((mid is None and got is None) or (mid is not None and _same(got, mid)))):
+                wrong.append("%s=%s -> .mid %s" % (key, _label(mid), _label(got)))
+        ctx.ob("Message(%s=m).mid is m for every message ID (0 is a message ID)" % key, not wrong, fi, fi.node, construct="Message(%s=...)" % key, detail="; ".join(wrong) if wrong else None)
+    tvals = kit.Machine(prog, prog.cls(MSG), Obj("self", "unused"), CONSTS, {}, {}).enum_members(kit.TYPE) if kit.TYPE in prog.classes else {}
+    ctx.need(set(TYPES) <= set(tvals) and all(isinstance(tvals[t], int) for t in TYPES), "numbers.types.Type does not define CON, NON, ACK, RST as integers")
+    for key in ("_mtype", "mtype"):
+        wrong = []
+        for t in TYPES:
+            for given in (Sym(t), tvals[t]):
+                out = _construct_message(ctx, {"code": 0, key: given})
+                got = out[1].attrs.get("mtype", "<unset>") if out[0] == "return" else "raises %s" % out[1]
+                n += 1
+                if not (out[0] == "return" and isinstance(got, Sym) and got == t):
+                    wrong.append("%s=%s -> .mtype %s" % (key, _label(given), _label(got)))
+        out = _construct_message(ctx, {"code": 0, key: None})
+        if not (out[0] == "return" and out[1].attrs.get("mtype", "<unset>") is None):
+            wrong.append("%s=None -> %s" % (key, _label(out[1].attrs.get("mtype", "<unset>")) if out[0] == "return" else "raises %s" % out[1]))
+        ctx.ob("Message(%s=t).mtype is t for every message type (CON is 0), and stays unset (None) when none is given" % key, not wrong, fi, fi.node, construct="Message(%s=...)" % key,
+               detail="; ".join(wrong) if wrong else None)
+    wrong = []
+    for code in (0, 1, 31, 64, 69, 132, 160, 191, None):
+        out = _construct_message(ctx, {"code": code, "_mtype": Sym("ACK"), "_mid": ind})
+        got = out[1].attrs.get("code", "<unset>") if out[0] == "return" else "raises %s" % out[1]
+        n += 1
+        if not (out[0] == "return" and ((code is None and got is None) or (code is not None and type(got) is int and got == code))):
+            wrong.append("code=%s -> .code %s" % (_code_label(code), _label(got)))
+        elif out[1].attrs.get("mid") is not ind or out[1].attrs.get("mtype") != "ACK":
+            wrong.append("code=%s -> mid %s, mtype %s" % (_code_label(code), _label(out[1].attrs.get("mid")), _label(out[1].attrs.get("mtype"))))
+    ctx.ob("Message(code=c).code is c for every code (EMPTY is 0)", not wrong, fi, fi.node, construct="Message(code=...)", detail="; ".join(wrong) if wrong else None)
+    out = _construct_message(ctx, {"code": 0})
+    ok = out[0] == "return" and out[1].attrs.get("mid", 1) is None and out[1].attrs.get("mtype", 1) is None and out[1].attrs.get("remote", 1) is None
+    ctx.ob("a message built without message ID, type and remote has none (the message layer fills them in)", ok, fi, fi.node, construct="Message(): defaults",
+           detail=None if ok else (str({k: _label(v) for k, v in out[1].attrs.items() if k in ("mid", "mtype", "remote")}) if out[0] == "return" else "raises %s" % out[1]))
+    ctx.floor("constructor scenarios", n, 20)
+
+
+# -- responses that arrive from another hop (forwarding proxy) ---------------------------------------------------
+
+PROXY_MODULE = "aiocoap.proxy.server"
+
+
+def _hop_message(m, tag, code, mtype, peer, opt_attrs=None):
+    """A message as Message.decode leaves it after arriving from `peer`: built by the analysed constructor, then
+    message type / ID / token / remote / direction of that hop filled in.  Its options are all safe to forward."""
+    o = m.construct(kit.MESSAGE, [], {"code": code}, None)
+    o.tag = tag
+    direction = m.member_value("aiocoap.message.Direction", "INCOMING") if "aiocoap.message.Direction" in m.prog.classes and "INCOMING" in m.enum_members("aiocoap.message.Direction") else Sym("Direction.INCOMING")
+    o.attrs.update({"mtype": Sym(mtype), "mid": Obj("obj", tag + ".mid"), "token": Obj("obj", tag + ".token"), "remote": _remote(peer), "direction": direction})
+    o.attrs["opt"] = Obj("obj", tag + ".opt", lazy=True, attrs=dict(opt_attrs or {}), methods={"option_list": lambda m_, recv, a, k, n: ()})
+    return o
+
+
+def forwarded_response(ctx, cls, fi, req_type, up_type):
+    """`fi` (a render method of the proxy class `cls`) run in a world where a redirector accepts the request and the
+    upstream server answers 2.05 in a message of type `up_type`; for the pooled-observation proxy the answer is also
+    what the observation it shares last delivered.  -> (outcome, machine, upstream message)"""
+    prog = ctx.prog
+    me = Obj("self", "self", lazy=True)
+    m = Machine(prog, cls, me, {}, _preds(ctx), {})
+    m.allow_async = True
+    m.opaque_readers = True
+    try:
+        request = _hop_message(m, "request", 1, req_type, "client", {"observe": None, "proxy_uri": None, "proxy_scheme": None})
+        upstream = _hop_message(m, "upstream-response", 69, up_type, "upstream")
+    except kit.Unknown as u:
+        raise AnalysisError("evaluation of Message(code=..): %s is outside the evaluator's vocabulary" % u)
+    except kit.Raised as r:
+        raise AnalysisError("Message(code=..) raises %s" % r.cls)
+    cache_key = Obj("obj", "cache-key")
+    # every request of this world asks for the same resource: one cache key
+    m.instance_stubs["get_cache_key"] = lambda m_, recv, a, k, n: cache_key
+    redirector = Obj("obj", "redirector", methods={"apply_redirection": lambda m_, recv, a, k, n: a[0] if a else k.get("request")})
+    pending = Obj("obj", "outgoing-request", lazy=True, attrs={"response": upstream, "_ProxyWithPooledObservations__latest_response": upstream, "__latest_response": upstream})
+    me.attrs["outgoing_context"] = Obj("obj", "outgoing_context", methods={"request": lambda m_, recv, a, k, n: pending})
+    me.attrs["_redirectors"] = new_list([redirector], tag="_redirectors")
+    me.attrs["_outgoing_observations"] = new_dict({cache_key: pending}, tag="_outgoing_observations")
+    out = m.run(fi, [me, request][:1 + len(params(fi))])
+    return out, m, upstream, request
+
+
+def _legal_on_the_wire(sent, hit, reqt):
+    """RFC 7252 section 5.2 and the property text: a response that finds the acknowledgement still open is the
+    piggy-backed ACK under the request's message ID; otherwise it is a separate response (CON or NON, fresh message
+    ID), a non-confirmable one when the request was non-confirmable and nobody asked for reliability."""
+    if len(sent) != 1 or len(sent[0]) < 3:
+        return False
+    mt, _code, mid = sent[0][:3]
+    if hit:
+        return mt == "ACK" and mid == "stored"
+    if reqt == "NON":
+        return mt == "NON" and mid == "fresh"
+    return mt in ("CON", "NON") and mid == "fresh"
+
+
+@R.clause("C10.k", "a response forwarded from another hop reaches the wire typed by this hop's rules: what a proxy's render hands on and what send_message makes of it, taken together")
+def k_forwarded(ctx):
+    """TWO SITES.  send_message chooses the message type itself only for a message that has none and honours a type
+    that is set (C10.d); a forwarding proxy hands the message it received from the upstream server on as its own
+    response, and that message carries the type it had on the upstream hop (ACK when it was piggy-backed there, CON or
+    NON when it was separate).  An independently written breaking change replaced the field-by-field reset in
+    Proxy.render by `response.copy(mid=None, remote=None, token=None)`: Message.copy keeps the type, so a slow
+    piggy-backed upstream answer left the proxy as a second ACK with a fresh message ID, and a NON request was answered
+    CON whenever the upstream server had answered CON.
+
+    The invariant is stated over both sites: every render method of the proxy module is run (Message.__init__,
+    Message.copy and whatever helpers it uses are evaluated, not modelled) with an upstream answer of each type;
+    whatever message type its result carries is then given as the preset type to the analysed send_message, for a
+    confirmable request whose acknowledgement is still open / already sent and for a non-confirmable request, and
+    what reaches the wire must be legal for THIS hop.  Either site may change (render may reset, copy with
+    mtype-less constructor, build a new message; send_message may stop honouring presets on responses) as long as the
+    composition holds."""
+    prog = ctx.prog
+    preds = _preds(ctx)
+    proxy_classes = [c for q, c in sorted(prog.classes.items()) if c.module.name == PROXY_MODULE and "render" in c.methods]
+    ctx.floor("proxy classes with a render method", len(proxy_classes), 1)
+    n = 0
+    for cls in proxy_classes:
+        fi = cls.methods["render"]
+        ctx.need(len(params(fi)) == 1, "%s does not take exactly the request" % fi.short)
+        for req_type, up_type in itertools.product(("CON", "NON"), ("CON", "NON", "ACK")):
+            out, m, upstream, request = forwarded_response(ctx, cls, fi, req_type, up_type)
+            world = "%s request, upstream answer typed %s" % (req_type, up_type)
+            ctx.need(out[0] == "return", "%s does not return in the world of a forwarded response (%s): %s" % (fi.short, world, out))
+            resp = out[1]
+            ctx.need(isinstance(resp, Obj) and not resp.token and "mtype" in resp.attrs and "code" in resp.attrs,
+                     "%s: the result in the world of a forwarded response (%s) is not a message the evaluator can follow: %s" % (fi.short, world, _label(resp)))
+            ctx.need(resp.attrs["code"] == 69, "%s: the upstream answer is not what is handed on (%s)" % (fi.short, world))
+            mt = resp.attrs["mtype"]
+            ctx.need(mt is None or (isinstance(mt, Sym) and mt in TYPES), "%s: message type of the result is %s" % (fi.short, _label(mt)))
+            preset = None if mt is None else str(mt)
+            for hit in ((False, True) if req_type == "CON" else (False,)):
+                got, _m = send_reaction(prog, preds, 69, None, hit, preset, False, False, None, req_type, "absent")
+                ok = got.get("outcome") == "return" and not got.get("queued") and _legal_on_the_wire(got.get("sent", ()), hit, req_type)
+                n += 1
+                ctx.ob("a forwarded response leaves typed by the rules of this hop (piggy-backed ACK under the request's message ID while the acknowledgement is open; afterwards a separate CON/NON "
+                       "response, NON by default for a NON request), whatever type it had on the upstream hop", ok, fi, fi.node,
+                       construct="%s.render: message type of the forwarded response" % cls.qn.split(".")[-1],
+                       detail="%s, %s: render hands on mtype=%s, send_message makes %s of it" % (world, "acknowledgement still open" if hit else "no acknowledgement open", _label(mt), list(got.get("sent", ())) or got.get("outcome")))
+    ctx.floor("forwarded-response scenarios", n, 9)
+
+
 # representative addresses (as IPv6 literals: what the dual-stack socket reports): groups and non-groups of both
 # families, and both edges of ff00::/8 and of 224.0.0.0/4 behind the v4 mapping
 _ADDRESSES = (
@@ -1046,3 +1258,22 @@ R.seed("C10.i", "aiocoap/transports/udp6.py", "        return ipaddress.ip_addre
 R.seed("C10.i", "aiocoap/transports/udp6.py", "        return ipaddress.ip_address(self._plainaddress().split(\"%\", 1)[0]).is_multicast", "        return ipaddress.IPv6Address(self.sockaddr[0]).is_multicast", "the peer's v4-mapped group address is not recognised: CON sent to an IPv4 group")
 R.seed("C10.i", "aiocoap/transports/udp6.py", "        addr, interface = _in6_pktinfo.unpack_from(self.pktinfo)\n\n        return self._strip_v4mapped(addr)", "        addr, interface = _in6_pktinfo.unpack_from(self.pktinfo)\n\n        return str(ipaddress.IPv6Address(addr))", "local address rendered without undoing the v4 mapping: the text of an IPv4 group parses as a non-multicast IPv6 address")
 R.seed("C10.i", "aiocoap/transports/udp6.py", "        if mapped is not None:\n            return str(mapped)\n        return str(address)", "        if mapped is None:\n            return str(mapped)\n        return str(address)", "inverted test in _strip_v4mapped: mapped addresses stay mapped (and plain ones become 'None')")
+
+# message ID 0 is a message ID (scenarios with concrete boundary message IDs in C10.b / C10.c / C10.d)
+R.seed("C10.b", F_MM, "        ack.mid = mid\n", "        ack.mid = mid or self._next_message_id()\n", "empty ACK for message ID 0 goes out under a fresh message ID")
+R.seed("C10.b", F_MM, "rst = Message(_mtype=RST, _mid=message.mid, code=EMPTY, payload=b\"\")", "rst = Message(_mtype=RST, _mid=message.mid or None, code=EMPTY, payload=b\"\")", "Reset for message ID 0 carries no message ID")
+R.seed("C10.c", F_MM, "            self._piggyback_opportunities[key] = (request.mid, handle)", "            self._piggyback_opportunities[key] = (request.mid or None, handle)", "message ID 0 is not remembered for the acknowledgement")
+R.seed("C10.d", F_MM, "                    message.mtype = ACK\n                    message.mid = mid\n", "                    message.mtype = ACK\n                    if mid:\n                        message.mid = mid\n", "response piggy-backed on message ID 0 gets a fresh message ID")
+
+F_MSG = "aiocoap/message.py"
+R.seed("C10.j", F_MSG, "        if mid is not None:\n", "        if mid:\n", "deprecated mid= keyword tested by truthiness: message ID 0 is dropped")
+R.seed("C10.j", F_MSG, "        if _mtype is None:\n", "        if not _mtype:\n", "type tested by truthiness: CON (= 0) is dropped")
+R.seed("C10.j", F_MSG, "        if code is None:\n            # as above with mtype", "        if not code:\n            # as above with mtype", "code tested by truthiness: EMPTY (0.00) is dropped")
+R.seed("C10.j", F_MSG, "        self.mid = _mid\n", "        self.mid = _mid or None\n", "message ID 0 filed as 'none yet'")
+R.seed("C10.j", F_MSG, "        if mtype is not None:\n", "        if mtype:\n", "deprecated mtype= keyword tested by truthiness: CON is dropped")
+
+F_PROXY = "aiocoap/proxy/server.py"
+R.seed("C10.k", F_PROXY, "        response.mtype = None\n        response.mid = None\n", "        response.mid = None\n", "forwarded response keeps the message type of the upstream hop")
+R.seed("C10.k", F_PROXY, "            cached_response.remote = None\n            cached_response.mtype = None\n", "            cached_response.remote = None\n", "response served from a pooled observation keeps the type the notification had upstream")
+R.seed("C10.k", F_PROXY, "        response.mtype = None\n        response.mid = None\n        response.remote = None\n", "        response = response.copy(mid=None, remote=None)\n", "copy() keeps the message type")
+R.seed("C10.d", F_MM, "        if message.mid is not None:\n            # if you can give any reason", "        if message.mid:\n            # if you can give any reason", "a message ID of 0 set by the application survives and is used instead of a fresh one")
